@@ -803,3 +803,127 @@ Section FilterProofs.
     intros E. rewrite E. unfold mk_nodelist. destruct e; reflexivity.
   Qed.
 End FilterProofs.
+
+(** * [parse_keyval_content] = combine policy over the two splits *)
+Fixpoint mapM {A B} (f : A -> sres B) (l : list A) : sres (list B) :=
+  match l with
+  | [] => Ok []
+  | a :: r => sbind (f a) (fun b => sbind (mapM f r) (fun bs => Ok (b :: bs)))
+  end.
+
+Fixpoint somes {A} (l : list (option A)) : list A :=
+  match l with
+  | [] => []
+  | Some a :: r => a :: somes r
+  | None :: r => somes r
+  end.
+
+Section KeyValProofs.
+  Variable mcomma meq : matcher.
+  Variable pol : policy.
+  Variable dflt : option node.
+  Variable extract : bool.
+  Variable lm : nmode.
+
+  (** what one comma-separated part contributes: nothing (no non-empty piece
+      around the first [=]) or a key with its value — split at [=] with
+      [max_split=1], key text of the first piece, value from the second *)
+  Definition kv_pair (part : node) : sres (option (str * node)) :=
+    sbind (split_list_at_chars meq (Some 1) false true lm part) (fun eqparts =>
+    match eqparts with
+    | [] => Ok None
+    | key_nl :: rest =>
+        sbind (kv_value dflt extract rest) (fun value =>
+        sbind (content_chars (node_items key_nl)) (fun key_s => Ok (Some (key_s, value))))
+    end).
+
+  (** how a repeated key is combined, as the policy names it *)
+  Definition comb (prev value : node) : node :=
+    match pol with
+    | PFirst => prev
+    | PLast => value
+    | PConcat => mk_nodelist (node_pos prev) None (node_items prev ++ node_items value)
+    | PError => prev
+    end.
+
+  Definition kv_add (d : kvs) (kv : str * node) : kvs :=
+    kv_set (fst kv) (match kv_lookup (fst kv) d with Some prev => comb prev (snd kv) | None => snd kv end) d.
+
+  (** policy 'error': no key is seen twice *)
+  Fixpoint keys_fresh (d : kvs) (ps : list (str * node)) : Prop :=
+    match ps with
+    | [] => True
+    | kv :: r => (pol = PError -> kv_lookup (fst kv) d = None) /\ keys_fresh (kv_add d kv) r
+    end.
+
+  Lemma kv_step_pair part d :
+    kv_step meq pol dflt extract lm part d =
+    sbind (kv_pair part) (fun o =>
+      match o with
+      | None => Ok d
+      | Some (k, v) =>
+          sbind (match kv_lookup k d with Some prev => kv_combine pol prev v | None => Ok v end)
+                (fun v1 => Ok (kv_set k v1 d))
+      end).
+  Proof.
+    unfold kv_step, kv_pair.
+    destruct (split_list_at_chars meq (Some 1) false true lm part) as [[|key_nl rest]|]; cbn [sbind]; try reflexivity.
+    destruct (kv_value dflt extract rest); cbn [sbind]; [|reflexivity].
+    destruct (content_chars (node_items key_nl)); cbn [sbind]; reflexivity.
+  Qed.
+
+  Lemma kv_loop_spec : forall parts d d',
+    kv_loop meq pol dflt extract lm parts d = Ok d' <->
+    exists po, mapM kv_pair parts = Ok po /\ keys_fresh d (somes po) /\ d' = fold_left kv_add (somes po) d.
+  Proof.
+    induction parts as [|part r IH]; intros d d'; cbn [kv_loop mapM].
+    - split.
+      + intros H. inversion H. exists []. cbn. auto.
+      + intros (po & E & _ & F). inversion E. subst. reflexivity.
+    - rewrite kv_step_pair. destruct (kv_pair part) as [o|]; cbn [sbind].
+      2:{ split; [discriminate | intros (po & E & _); discriminate]. }
+      destruct o as [[k v]|].
+      + destruct (kv_lookup k d) as [prev|] eqn:LK.
+        * unfold kv_combine. destruct pol eqn:PL; cbn [sbind].
+          all: try (rewrite IH; split;
+            [ intros (po & E & F & G); exists (Some (k, v) :: po); rewrite E; cbn [sbind somes keys_fresh fold_left];
+              unfold kv_add at 1 3; cbn [fst snd]; rewrite LK; unfold comb; rewrite PL;
+              (split; [reflexivity|]); (split; [split; [discriminate|exact F] | exact G])
+            | intros (po & E & F & G); destruct (mapM kv_pair r) as [po'|]; cbn [sbind] in E; [|discriminate];
+              inversion E; subst po; cbn [somes keys_fresh fold_left] in F, G; destruct F as [_ F];
+              unfold kv_add at 1 in F; unfold kv_add at 2 in G; cbn [fst snd] in F, G; rewrite LK in F, G;
+              unfold comb in F, G; rewrite PL in F, G; exists po'; auto ]).
+          split; [discriminate|].
+          intros (po & E & F & G). destruct (mapM kv_pair r) as [po'|]; cbn [sbind] in E; [|discriminate].
+          inversion E; subst po. cbn [somes keys_fresh] in F. destruct F as [F _]. cbn [fst] in F.
+          rewrite F in LK; [discriminate | exact PL].
+        * cbn [sbind]. rewrite IH. split.
+          -- intros (po & E & F & G). exists (Some (k, v) :: po). rewrite E. cbn [sbind somes keys_fresh fold_left].
+             unfold kv_add at 1 3. cbn [fst snd]. rewrite LK. split; [reflexivity|]. split; [split; [auto|exact F] | exact G].
+          -- intros (po & E & F & G). destruct (mapM kv_pair r) as [po'|]; cbn [sbind] in E; [|discriminate].
+             inversion E; subst po. cbn [somes keys_fresh fold_left] in F, G. destruct F as [_ F].
+             unfold kv_add at 1 in F. unfold kv_add at 2 in G. cbn [fst snd] in F, G. rewrite LK in F, G.
+             exists po'. auto.
+      + cbn [sbind]. rewrite IH. split.
+        * intros (po & E & F & G). exists (None :: po). rewrite E. cbn [sbind somes]. auto.
+        * intros (po & E & F & G). destruct (mapM kv_pair r) as [po'|]; cbn [sbind] in E; [|discriminate].
+          inversion E; subst po. cbn [somes] in F, G. exists po'. auto.
+  Qed.
+
+  (** C18_keyval *)
+  Theorem parse_keyval_spec nl d :
+    parse_keyval_content mcomma meq pol dflt extract lm nl = Ok d <->
+    exists parts po,
+      split_list_at_chars mcomma None false true lm nl = Ok parts /\
+      mapM kv_pair parts = Ok po /\
+      keys_fresh [] (somes po) /\
+      d = fold_left kv_add (somes po) [].
+  Proof.
+    unfold parse_keyval_content.
+    destruct (split_list_at_chars mcomma None false true lm nl) as [parts|]; cbn [sbind].
+    - rewrite kv_loop_spec. split.
+      + intros (po & A & B & C). exists parts, po. auto.
+      + intros (parts' & po & A & B & C & D). inversion A; subst. exists po. auto.
+    - split; [discriminate | intros (parts' & po & A & _); discriminate].
+  Qed.
+End KeyValProofs.
